@@ -167,13 +167,30 @@ def diff_chain(a, b, chain=()):
 
 def trip_finding(J, Jnext):
     """which recorded finding, if any, explains that the next round trip of J gives Jnext"""
-    if has_suffixed_title(J):
+    # K22 is the SWAP of de-duplication suffixes between same-titled classes: both documents carry the same class names
+    # (titles, definitions keys); a trip that invents or loses a name is something else
+    if has_suffixed_title(J) and sorted(all_titles(J)) == sorted(all_titles(Jnext)):
         return "C06-K22"
     # K24: the difference lies in a schema object one of whose allOf members is {} (that member is dropped by the next parse)
     for node in diff_chain(J, Jnext)[-2:]:
         if isinstance(node, dict) and isinstance(node.get("allOf"), list) and any(isinstance(m, dict) and not m for m in node["allOf"]):
             return "C06-K24"
     return None
+
+
+def all_titles(j, acc=None):
+    acc = [] if acc is None else acc
+    if isinstance(j, dict):
+        if isinstance(j.get("title"), str):
+            acc.append(j["title"])
+        if isinstance(j.get("definitions"), dict):
+            acc.extend("def:" + k for k in j["definitions"])
+        for v in j.values():
+            all_titles(v, acc)
+    elif isinstance(j, list):
+        for v in j:
+            all_titles(v, acc)
+    return acc
 
 
 def has_suffixed_title(j):
